@@ -41,12 +41,34 @@ class FactSink:
             return
         self.facts.append(f)
 
-    def add_aux(self, f):
+    def add_aux(self, f, terms=()):
         """Auxiliary (nonlinear / transcendental) facts: only used in the second discharge
-        stage, because they slow down or derail obligations that do not need them."""
+        stage, and only when every EXP/SQRT application they talk about occurs in the
+        obligation at hand (relevance filter) -- they slow down or derail obligations that
+        do not need them."""
         if f is True:
             return
-        self.aux.append(f)
+        self.aux.append((f, tuple(t.get_id() for t in terms), tuple(terms)))  # owns the terms (ids are reused after GC)
+
+    def relevant_aux(self, exprs):
+        """Aux facts whose tagged terms all occur in the given expressions."""
+        if not self.aux:
+            return []
+        seen = set()
+        stack = list(exprs)
+        visited = set()
+        while stack:
+            e = stack.pop()
+            i = e.get_id()
+            if i in visited:
+                continue
+            visited.add(i)
+            if z3.is_quantifier(e):
+                stack.append(e.body())
+                continue
+            if z3.is_app(e):
+                stack.extend(e.children())
+        return [f for (f, ids, _) in self.aux if all(i in visited for i in ids)]
 
 
 _SINK = [FactSink()]
@@ -623,7 +645,10 @@ def f_le(a, b):
 def f_eq(a, b):
     """IEEE ==  (NaN is not equal to anything)."""
     if _conc_num(a) and _conc_num(b):
-        return float(a) == float(b)
+        a, b = float(a), float(b)
+        if TOL[0] and math.isfinite(a) and math.isfinite(b):
+            return abs(a - b) <= _tol(a, b)
+        return a == b
     a, b = sfloat(a), sfloat(b)
     return b_and(b_not(a.nan), b_not(b.nan), _ext_eq(a, b))
 
@@ -752,17 +777,17 @@ def _register_exp(arg):
         return s.exp_terms[key][1]
     t = EXP(arg)
     # pointwise axioms
-    s.add(t > 0)
-    s.add_aux(z3.Implies(arg <= 0, t <= 1))
-    s.add_aux(z3.Implies(arg >= 0, t >= 1))
-    s.add_aux(z3.Implies(arg < 0, t < 1))
-    s.add_aux(z3.Implies(arg == 0, t == 1))
+    s.add_aux(t > 0, [t])
+    s.add_aux(z3.Implies(arg <= 0, t <= 1), [t])
+    s.add_aux(z3.Implies(arg >= 0, t >= 1), [t])
+    s.add_aux(z3.Implies(arg < 0, t < 1), [t])
+    s.add_aux(z3.Implies(arg == 0, t == 1), [t])
     # pairwise monotonicity with the terms seen so far
     for (a2, t2) in s.exp_terms.values():
-        s.add_aux(z3.Implies(arg <= a2, t <= t2))
-        s.add_aux(z3.Implies(a2 <= arg, t2 <= t))
-        s.add_aux(z3.Implies(arg < a2, t < t2))
-        s.add_aux(z3.Implies(a2 < arg, t2 < t))
+        s.add_aux(z3.Implies(arg <= a2, t <= t2), [t, t2])
+        s.add_aux(z3.Implies(a2 <= arg, t2 <= t), [t, t2])
+        s.add_aux(z3.Implies(arg < a2, t < t2), [t, t2])
+        s.add_aux(z3.Implies(a2 < arg, t2 < t), [t, t2])
     s.exp_terms[key] = (arg, t)
     return t
 
@@ -796,10 +821,10 @@ def f_sqrt(a):
     s = sink()
     fin_arg = a.val if a.inf is False else z3.If(zbool(a.inf), q(0), a.val)
     t = SQRT(fin_arg)
-    s.add(z3.Implies(fin_arg >= 0, t >= 0))
-    s.add_aux(z3.Implies(fin_arg >= 0, t * t == fin_arg))
-    s.add_aux(z3.Implies(fin_arg > 0, t > 0))
-    s.add_aux(z3.Implies(fin_arg == 0, t == 0))
+    s.add_aux(z3.Implies(fin_arg >= 0, t >= 0), [t])
+    s.add_aux(z3.Implies(fin_arg >= 0, t * t == fin_arg), [t])
+    s.add_aux(z3.Implies(fin_arg > 0, t > 0), [t])
+    s.add_aux(z3.Implies(fin_arg == 0, t == 0), [t])
     neg = b_and(b_not(a.inf), a.val < 0)
     nan = b_or(a.nan, neg, b_and(a.inf, a.val < 0))
     if a.inf is False:
